@@ -19,9 +19,19 @@ EXPLANATION = (
     "best_recoverable_version is the maximum of the recoverable versions; (5) Publish.publish adds every "
     "get_bad_shares() key to the goal and writes it with the recorded old checkstring; mark_bad_share records the "
     "checkstring and drops the share from the known shares; (6) MutableChecker.check builds the verdict after the "
-    "verify pass from the servermap the verifier marked bad shares in. "
-    "Undecided: post-repair share counts / placement, version comparison arithmetic inside "
-    "unrecoverable_newer_versions and needs_merge, an unrecoverable version with the same seqnum as the best one.")
+    "verify pass from the servermap the verifier marked bad shares in; (7) ServerMap classifies a version by comparing "
+    "the number of DISTINCT share numbers of its shares with k (field 5 of the verinfo): recoverable_versions() holds "
+    "exactly the versions with k <= distinct, unrecoverable_versions() exactly those with distinct < k, "
+    "unrecoverable_newer_versions() keeps every version with distinct < k whose seqnum exceeds the highest seqnum of the "
+    "versions with k <= distinct (that bound is raised by recoverable versions only and starts below every seqnum), "
+    "needs_merge() is True whenever two recoverable versions share a seqnum, and make_versionmap() puts the share number "
+    "first in the per-version share tuples that are counted; (8) the servermap the repairer's refusal gates and the "
+    "republish run on is always the result of the repairer's own ServermapUpdater(..).update() in a mode for which "
+    "ServermapUpdater.update queries the full permuted server list (MODE_REPAIR / MODE_CHECK): _got_full_servermap has "
+    "no other caller or reference, nothing between update() and it replaces the map, and MutableFileNode.repair goes "
+    "through Repairer.start. "
+    "Undecided: post-repair share counts / placement, an unrecoverable version with the same seqnum as the best one, "
+    "the completion policy of the mapupdate after the initial queries were sent (that every queried server is waited for).")
 TECHNIQUE = "static analysis: CFG x abstract-state monitor (constant propagation over branch facts), must-precede gates, Deferred chain order, who-may-call"
 
 CHK = "mutable.checker:MutableChecker"
@@ -118,6 +128,262 @@ def _uses_everywhere(idx, tail, module_prefix=None):
             if hit is not None and id(n) not in seen:
                 seen.add(id(n))
                 res.append((f, n, hit))
+    return res
+
+
+GFS = "_got_full_servermap"
+
+
+def _gfs_entries(st):
+    """How Repairer.start hands (servermap, force) to _got_full_servermap: [(registration, force expr, use node)] for
+    ``d.addCallback(self._got_full_servermap, force)`` and ``d.addCallback(lambda m: self._got_full_servermap(m, force))``."""
+    out = []
+    for x in registrations(st):
+        t = x.target
+        if isinstance(t, ast.Attribute) and attr_path(t) == "self." + GFS:
+            out.append((x, x.args[0] if len(x.args) == 1 else None, t))
+        elif isinstance(t, ast.Lambda) and len(t.args.args) == 1 and not x.args and isinstance(t.body, ast.Call) \
+                and call_name(t.body) == "self." + GFS and len(t.body.args) == 2 and not t.body.keywords \
+                and isinstance(t.body.args[0], ast.Name) and t.body.args[0].id == t.args.args[0].arg:
+            out.append((x, t.body.args[1], t.body))
+    return out
+
+
+def _unchain_regs(e):
+    """strip ``.addCallback(..)``-style layers: the expression the chain starts from."""
+    while isinstance(e, ast.Call) and isinstance(e.func, ast.Attribute) and e.func.attr in ("addCallback", "addErrback", "addBoth", "addCallbacks"):
+        e = e.func.value
+    return e
+
+
+def _res(fn, fnorm, n, e, defs=None):
+    """follow plain-name copies; a name with one single definition in the function (also a list/set display) is followed too."""
+    for _ in range(6):
+        e2 = fnorm.resolve(n, e)
+        if isinstance(e2, ast.Name):
+            ds = (defs if defs is not None else all_defs(fn)).get(e2.id, [])
+            if len(ds) == 1 and ds[0] is not None and e2.id not in fn.params:
+                e2 = ds[0]
+        if e2 is e:
+            break
+        e = e2
+    return e
+
+
+def _item0_of(target, elt):
+    """`elt` is component 0 of the item bound to the loop / comprehension target `target`."""
+    if isinstance(target, (ast.Tuple, ast.List)) and target.elts and isinstance(target.elts[0], ast.Name):
+        return isinstance(elt, ast.Name) and elt.id == target.elts[0].id
+    if isinstance(target, ast.Name):
+        return isinstance(elt, ast.Subscript) and isinstance(elt.value, ast.Name) and elt.value.id == target.id \
+            and isinstance(elt.slice, ast.Constant) and elt.slice.value == 0 and not isinstance(elt.slice.value, bool)
+    return False
+
+
+def _comp_of_item0(e, coll):
+    """[x0 for (x0, ..) in coll] / {..} / (..): component 0 of every element of the collection named `coll`, unfiltered."""
+    if isinstance(e, (ast.SetComp, ast.ListComp, ast.GeneratorExp)) and len(e.generators) == 1:
+        g = e.generators[0]
+        return not g.ifs and not g.is_async and isinstance(g.iter, ast.Name) and g.iter.id == coll and _item0_of(g.target, e.elt)
+    return False
+
+
+def _is_distinct_item0_count(fn, fnorm, n, e, coll, loop_ast):
+    """`e` is len(S) with S the SET of component 0 (the share number) of the elements of `coll`."""
+    defs = all_defs(fn)
+    e = _res(fn, fnorm, n, e, defs)
+    if not (isinstance(e, ast.Call) and call_name(e) == "len" and len(e.args) == 1 and not e.keywords):
+        return False
+    x = e.args[0]
+    if isinstance(x, ast.Name) and len(defs.get(x.id, [])) >= 1 and all(
+            isinstance(d, ast.Call) and call_name(d) == "set" and not d.args and not d.keywords for d in defs[x.id]):
+        # s = set() inside the per-version loop, filled by s.add(shnum) in `for (shnum, ..) in coll`
+        inside = {id(y) for y in ast.walk(loop_ast)}
+        if not all(id(d) in inside for d in defs[x.id]):
+            return False
+        adds = [c for c in calls_in_func(fn, "add") if attr_path(c.func.value) == x.id]
+        if not adds:
+            return False
+        fors = [y for y in ast.walk(loop_ast) if isinstance(y, ast.For) and y is not loop_ast
+                and isinstance(y.iter, ast.Name) and y.iter.id == coll]
+        for c in adds:
+            host = [f for f in fors if any(z is c for z in ast.walk(f))]
+            if not (host and len(c.args) == 1 and _item0_of(host[0].target, c.args[0])):
+                return False
+        return True
+    x = _res(fn, fnorm, n, x, defs)
+    if isinstance(x, ast.SetComp):
+        return _comp_of_item0(x, coll)
+    if isinstance(x, ast.Call) and call_name(x) in ("set", "frozenset") and len(x.args) == 1 and not x.keywords:
+        return _comp_of_item0(_res(fn, fnorm, n, x.args[0], defs), coll)
+    return False
+
+
+def _loop_iterations(cfg, head, init, step):
+    """Explore ONE iteration of the loop headed by `head`: from its 'iter' edge until control is back at the head (or left
+    the loop).  step(node, label, state) -> state | None.  Returns (visited, parent, [(state, witness)] back at the head)."""
+    def tr(n, lab, nxt, st):
+        if lab == "exc":
+            return None
+        if n is head:
+            return init if (lab == "iter" and st == "start") else None
+        if st == "start":
+            return None
+        return step(n, lab, st)
+    visited, parent = explore(cfg, "start", tr, start=head)
+    back = [(st, witness(cfg, parent, (nid, st))) for (nid, st) in sorted(visited, key=lambda x: (x[0], str(x[1])))
+            if nid == head.id and st != "start"]
+    return visited, parent, back
+
+
+def _versionmap_loop(fn, fnorm):
+    """the loop `for (verinfo, shares) in self.make_versionmap().items()` of a ServerMap method."""
+    cfg = fn.cfg()
+    heads = [n for n in cfg.nodes if n.kind == "iter" and re.match(
+        r"^(list\()?self\.make_versionmap\(\)\.items\(\)\)?$", fnorm.norm(n, n.ast.iter))]
+    if len(heads) != 1:
+        raise AnchorVanished("loop over self.make_versionmap().items() in %s" % short(fn))
+    t = heads[0].ast.target
+    if not (isinstance(t, ast.Tuple) and len(t.elts) == 2 and all(isinstance(e, ast.Name) for e in t.elts)):
+        raise AnchorVanished("(verinfo, shares) loop target in %s" % short(fn))
+    return cfg, heads[0], t.elts[0].id, t.elts[1].id
+
+
+def _recoverability_tests(r, fn, fnorm, cfg, head, vname, sname):
+    """test nodes that compare something with k = verinfo[5]: {node id: normal form of the other side}.  The other side has
+    to be the number of distinct share numbers of the version's shares."""
+    kstr = "%s[5]" % vname
+    tests = {}
+    for n in cfg.nodes:
+        if n.kind != "test":
+            continue
+        t = n.ast
+        while isinstance(t, ast.UnaryOp) and isinstance(t.op, ast.Not):
+            t = t.operand
+        if not (isinstance(t, ast.Compare) and len(t.ops) == 1):
+            continue
+        sides = [t.left, t.comparators[0]]
+        ns = [fnorm.norm(n, x) for x in sides]
+        if ns.count(kstr) != 1:
+            continue
+        ci = 1 - ns.index(kstr)
+        r.site(fn, t, "count vs k")
+        if not _is_distinct_item0_count(fn, fnorm, n, sides[ci], sname, head.ast):
+            r.violation(fn, fn.loc(t), "%s decides whether a version is recoverable from %s, which is not the number of distinct "
+                        "share numbers among the version's shares (copies of one share number on several servers must count once)" % (
+                            short(fn), src(fn, sides[ci])))
+        tests[n.id] = ns[ci]
+    return kstr, tests
+
+
+def _cls_step(fnorm, tests, kstr, n, lab, cur):
+    """refine the class of the version of this iteration: '?' unknown, 'lt' distinct < k, 'ge' k <= distinct, 'mixed'."""
+    if n.kind != "test" or n.id not in tests or not isinstance(lab, tuple):
+        return cur
+    op, l, rr = _fact(fnorm, n, lab)
+    c = tests[n.id]
+    if (op, l, rr) == ("<", c, kstr):
+        new = "lt"
+    elif (op, l, rr) in (("<=", kstr, c), ("<", kstr, c)) or (op == "==" and {l, rr} == {c, kstr}):
+        new = "ge"
+    else:
+        new = "mixed"
+    if cur in ("?", "mixed"):
+        return new
+    if new == "mixed" or new == cur:
+        return cur
+    return None     # contradictory facts: infeasible
+
+
+CLS_TXT = {"?": "its distinct share count was not compared with k", "lt": "it has fewer than k distinct shares",
+           "ge": "it has at least k distinct shares", "mixed": "it may have fewer than k as well as k or more distinct shares"}
+
+
+def _returned_name(fn, cfg):
+    names = set()
+    for n in cfg.find(is_return):
+        v = n.ast.value
+        if not isinstance(v, ast.Name):
+            raise AnchorVanished("%s returns %s, not a local collection" % (short(fn), src(fn, v) if v is not None else "None"))
+        names.add(v.id)
+    if len(names) != 1:
+        raise AnchorVanished("single returned collection of %s" % short(fn))
+    return names.pop()
+
+
+def _adds_to(n, coll, item):
+    return any(isinstance(c.func, ast.Attribute) and c.func.attr == "add" and attr_path(c.func.value) == coll and len(c.args) == 1
+               and isinstance(c.args[0], ast.Name) and c.args[0].id == item for c in node_calls(n))
+
+
+def _strip_wrappers(e, names=("list", "sorted", "set", "tuple", "frozenset")):
+    while isinstance(e, ast.Call) and call_name(e) in names and len(e.args) == 1 and not e.keywords:
+        e = e.args[0]
+    return e
+
+
+def _all_server_modes(idx, r):
+    """The mode constants for which ServermapUpdater.update sends its initial queries to the full permuted server list
+    (None = for every mode)."""
+    folder = get_folder(idx)
+    up = idx.func("mutable.servermap:ServermapUpdater.update")
+    cfg = up.cfg()
+    un = FlowNorm(up)
+    sends = [n for n in cfg.find(has_call("_send_initial_requests"))]
+    qs = set()
+    for n in sends:
+        for c in calls_at(n, "_send_initial_requests"):
+            if len(c.args) == 1 and isinstance(c.args[0], ast.Name):
+                qs.add(c.args[0].id)
+    if len(qs) != 1:
+        raise AnchorVanished("self._send_initial_requests(<list>) in ServermapUpdater.update")
+    q = qs.pop()
+    full_re = re.compile(r"^(list\()*self\._storage_broker\.get_servers_for_psi\(self\._storage_index\)\)*$")
+
+    def mode_test(n):
+        t = n.ast
+        if not (isinstance(t, ast.Compare) and len(t.ops) == 1):
+            return None
+        a, b = t.left, t.comparators[0]
+        try:
+            if isinstance(t.ops[0], ast.In) and un.norm(n, a) == "self.mode" and isinstance(b, (ast.Tuple, ast.List, ast.Set)):
+                return frozenset(folder.fold(e, up.module, up.cls) for e in b.elts)
+            if isinstance(t.ops[0], ast.Eq):
+                if un.norm(n, a) == "self.mode":
+                    return frozenset([folder.fold(b, up.module, up.cls)])
+                if un.norm(n, b) == "self.mode":
+                    return frozenset([folder.fold(a, up.module, up.cls)])
+        except NotConstant:
+            return None
+        return None
+
+    def tr(n, lab, nxt, st):
+        modes, qd = st
+        if lab == "exc":
+            return None
+        if n.kind == "test" and isinstance(lab, tuple) and lab[0] == "T":
+            m = mode_test(n)
+            if m is not None:
+                modes = m if modes is None else (modes & m)
+                if not modes:
+                    return None
+        if n.kind in ("stmt", "iter", "with") and q in node_stores(n):
+            v = assign_value(n, q) if n.kind == "stmt" else None
+            qd = "full" if (v is not None and full_re.match(un.norm(n, v))) else "other"
+        return (modes, qd)
+    visited, _parent = explore(cfg, (None, "?"), tr)
+    r.count(len(visited))
+    res = set()
+    for (nid, (modes, qd)) in visited:
+        if cfg.nodes[nid] in sends and qd == "full":
+            if modes is None:
+                return None
+            res |= modes
+    # the attribute that is tested is the constructor argument
+    ini = idx.func("mutable.servermap:ServermapUpdater.__init__")
+    vals = [assign_value(n, "self.mode") for n in ini.cfg().nodes if "self.mode" in node_stores(n)]
+    if not vals or not all(isinstance(v, ast.Name) and v.id == "mode" for v in vals) or "mode" not in ini.params:
+        raise AnchorVanished("self.mode = mode in ServermapUpdater.__init__")
     return res
 
 
@@ -415,12 +681,12 @@ def run(ctx: Context):
         # force travels unchanged: Repairer.start(force) -> _got_full_servermap(.., force); MutableFileNode.repair(.., force) -> start(force)
         st = idx.func(REP + ".start")
         sforce = first_positional_params(st)
-        regs = [x for x in registrations(st) if x.target_name() == "self._got_full_servermap"]
+        regs = _gfs_entries(st)
         if not regs or not sforce:
             raise AnchorVanished("_got_full_servermap registration in Repairer.start")
-        for x in regs:
-            r.require(len(x.args) == 1 and isinstance(x.args[0], ast.Name) and x.args[0].id == sforce[0] and x.kind == "cb", st, st.loc(x.call),
-                      "Repairer.start hands force=%s to _got_full_servermap" % (src(st, x.args[0]) if x.args else "nothing"))
+        for (x, fexpr, _use) in regs:
+            r.require(isinstance(fexpr, ast.Name) and fexpr.id == sforce[0] and x.kind == "cb", st, st.loc(x.call),
+                      "Repairer.start hands force=%s to _got_full_servermap" % (src(st, fexpr) if fexpr is not None else "nothing"))
         for n in st.cfg().find(stores(sforce[0])):
             r.violation(st, st.loc(n.ast), "Repairer.start overwrites its force argument")
         nr = idx.func(NODE + ".repair")
